@@ -54,13 +54,22 @@ type heap struct {
 	objects uint64
 }
 
+// measure returns the retained heap: the minimum over five collections a millisecond apart. The interceptor's ticker goroutines keep
+// allocating while we measure (121 reports per tick in the many-streams workload); what they have in flight at one instant is noise
+// that only ever adds, so the minimum is the better estimate of what is retained.
 func measure() heap {
-	runtime.GC()
-	runtime.GC()
-	var ms runtime.MemStats
-	runtime.ReadMemStats(&ms)
+	best := heap{alloc: ^uint64(0), objects: ^uint64(0)}
+	for i := 0; i < 5; i++ {
+		runtime.GC()
+		runtime.GC()
+		var ms runtime.MemStats
+		runtime.ReadMemStats(&ms)
+		best.alloc = min(best.alloc, ms.HeapAlloc)
+		best.objects = min(best.objects, ms.HeapObjects)
+		time.Sleep(time.Millisecond)
+	}
 
-	return heap{alloc: ms.HeapAlloc, objects: ms.HeapObjects}
+	return best
 }
 
 type result struct {
